@@ -1,6 +1,916 @@
-//! C16 (stub)
+//! C16 — byte, hex, word and primitive conversions are lossless, positional and strict.
+//!
+//! Oracle: the big-endian byte i of an n-byte value x is floor(x / 256^(n-1-i)) mod 256 (taken from
+//! `BigUint::to_bytes_le`, i.e. the coefficient of 256^(n-1-i)), little-endian reversed; hex /
+//! binary strings are `format!("{:x}")` / `{:b}` of the oracle value padded to the full width;
+//! decoders are compared with `BigUint::from_bytes_be` / `parse_bytes`. Primitive conversions,
+//! concat / split / resize / widen / shorten are compared with the plain arithmetic meaning
+//! (lo + hi * 2^(64 LO), x mod 2^(64 T), sign extension).
+//!
+//! Not covered here: serde (feature not built), NonZero/Odd wrappers (C12), the known
+//! BoxedUint::from_be_hex length panic (C11).
+
 use super::prelude::*;
+use crypto_bigint::{
+    ArrayDecoding, ArrayEncoding, ByteArray, Concat, ConcatMixed, DecodeError, Encoding, I64, I128, Split, SplitMixed, U64,
+    U128, WideWord,
+};
+use num_traits::ToPrimitive;
+
+// ---------------------------------------------------------------- oracle helpers
+
+/// Big-endian bytes of `x` in exactly `n` bytes: byte i is the coefficient of 256^(n-1-i).
+fn be_bytes(x: &BigUint, n: usize) -> Vec<u8> {
+    let le = x.to_bytes_le();
+    (0..n).map(|i| *le.get(n - 1 - i).unwrap_or(&0)).collect()
+}
+
+/// Little-endian bytes of `x` in exactly `n` bytes: byte i is the coefficient of 256^i.
+fn le_bytes(x: &BigUint, n: usize) -> Vec<u8> {
+    let le = x.to_bytes_le();
+    (0..n).map(|i| *le.get(i).unwrap_or(&0)).collect()
+}
+
+fn hex_of(bytes: &[u8]) -> String {
+    bytes.iter().map(|b| format!("{:02x}", b)).collect()
+}
+
+/// Randomly mixed letter case.
+fn mixed_case(c: &mut Ctx, s: &str) -> String {
+    s.chars().map(|ch| if c.coin() { ch.to_ascii_uppercase() } else { ch.to_ascii_lowercase() }).collect()
+}
+
+/// A structured random byte string.
+fn rnd_bytes(c: &mut Ctx, n: usize) -> Vec<u8> {
+    let style = c.below(4);
+    (0..n)
+        .map(|_| match (style, c.below(6)) {
+            (0, _) => c.word() as u8,
+            (_, 0) => 0,
+            (_, 1) => 0xff,
+            (_, 2) => 0x80,
+            (_, 3) => 0x7f,
+            (_, 4) => 1,
+            _ => c.word() as u8,
+        })
+        .collect()
+}
+
+/// Every single-byte character that is not a hex digit (the full 7-bit alphabet).
+fn non_hex_ascii() -> Vec<char> {
+    (0u8..0x80).filter(|b| !b.is_ascii_hexdigit()).map(|b| b as char).collect()
+}
+
+const HEX_DIGITS: &str = "0123456789abcdefABCDEF";
+/// Multi-byte UTF-8 sequences (2, 3, 4 bytes; bytes 0x80..0xff) used to replace as many hex digits.
+const MULTI: [&str; 6] = ["\u{e9}", "\u{20ac}", "\u{1f600}", "\u{80}", "\u{7ff}", "\u{ffff}"];
+
+/// Character positions worth probing in a hex string of `len` characters.
+fn hex_positions(c: &mut Ctx, len: usize) -> Vec<usize> {
+    let mut p = vec![0, 1, 2, 14, 15, 16, 17, len / 2, len - 3, len - 2, len - 1, c.below(len), c.below(len)];
+    p.retain(|&i| i < len);
+    p.sort();
+    p.dedup();
+    p
+}
+
+fn replace_at(s: &str, pos: usize, nchars: usize, with: &str) -> String {
+    format!("{}{}{}", &s[..pos], with, &s[pos + nchars..])
+}
+
+/// Value denoted by a little-endian hex string (pairs of digits, least significant byte first).
+fn parse_le_hex(s: &str) -> Option<BigUint> {
+    let b = s.as_bytes();
+    let mut rev = Vec::with_capacity(b.len());
+    for pair in b.chunks(2).rev() {
+        rev.extend_from_slice(pair);
+    }
+    BigUint::parse_bytes(&rev, 16)
+}
+
+fn signed_of(a: &BigUint, bits: u32) -> BigInt {
+    wrap_signed(&BigInt::from(a.clone()), bits)
+}
+
+// ---------------------------------------------------------------- Uint: bytes, slices, arrays (concrete aliases)
+
+macro_rules! fixed_mod {
+    ($m:ident, $ty:ident, $l:literal) => {
+        mod $m {
+            use super::*;
+            type T = crypto_bigint::$ty;
+            const L: usize = $l;
+            const N: usize = 8 * $l;
+
+            /// to_*_bytes (inherent const form + Encoding), from_*_bytes, from_*_slice, hybrid-array forms.
+            pub fn bytes(c: &mut Ctx) {
+                for a in c.inputs1(L) {
+                    if c.done() {
+                        return;
+                    }
+                    let x: T = bu::<L>(&a);
+                    let (be, le) = (be_bytes(&a, N), le_bytes(&a, N));
+                    // encode: inherent const fn (macro generated), Encoding trait, ArrayEncoding
+                    check!(c, call(|| T::to_be_bytes(&x).to_vec()), be.clone(); a);
+                    check!(c, call(|| T::to_le_bytes(&x).to_vec()), le.clone(); a);
+                    check!(c, call(|| Encoding::to_be_bytes(&x).to_vec()), be.clone(); a);
+                    check!(c, call(|| Encoding::to_le_bytes(&x).to_vec()), le.clone(); a);
+                    check!(c, call(|| ArrayEncoding::to_be_byte_array(&x).to_vec()), be.clone(); a);
+                    check!(c, call(|| ArrayEncoding::to_le_byte_array(&x).to_vec()), le.clone(); a);
+                    // decode
+                    let bea: [u8; N] = be.clone().try_into().unwrap();
+                    let lea: [u8; N] = le.clone().try_into().unwrap();
+                    check!(c, call(|| <T as Encoding>::from_be_bytes(bea)).map(|r| ub(&r)), a.clone(); a);
+                    check!(c, call(|| <T as Encoding>::from_le_bytes(lea)).map(|r| ub(&r)), a.clone(); a);
+                    check!(c, call(|| T::from_be_slice(&be)).map(|r| ub(&r)), a.clone(); a);
+                    check!(c, call(|| T::from_le_slice(&le)).map(|r| ub(&r)), a.clone(); a);
+                    let bar: ByteArray<T> = ByteArray::<T>::try_from(&be[..]).unwrap();
+                    let lar: ByteArray<T> = ByteArray::<T>::try_from(&le[..]).unwrap();
+                    check!(c, call(|| T::from_be_byte_array(bar.clone())).map(|r| ub(&r)), a.clone(); a);
+                    check!(c, call(|| T::from_le_byte_array(lar.clone())).map(|r| ub(&r)), a.clone(); a);
+                    check!(c, call(|| bar.clone().into_uint_be()).map(|r| ub(&r)), a.clone(); a);
+                    check!(c, call(|| lar.clone().into_uint_le()).map(|r| ub(&r)), a.clone(); a);
+                }
+                // decode first, then encode: any N-byte string is the encoding of from_bytes(bytes)
+                for _ in 0..(c.iters / 4).max(16) {
+                    if c.done() {
+                        return;
+                    }
+                    let bytes = rnd_bytes(c, N);
+                    let vbe = BigUint::from_bytes_be(&bytes);
+                    let vle = BigUint::from_bytes_le(&bytes);
+                    check!(c, call(|| T::from_be_slice(&bytes)).map(|r| ub(&r)), vbe.clone(); bytes);
+                    check!(c, call(|| T::from_le_slice(&bytes)).map(|r| ub(&r)), vle.clone(); bytes);
+                    check!(c, call(|| T::from_be_slice(&bytes).to_be_bytes().to_vec()), bytes.clone(); bytes);
+                    check!(c, call(|| T::from_le_slice(&bytes).to_le_bytes().to_vec()), bytes.clone(); bytes);
+                    let arr: [u8; N] = bytes.clone().try_into().unwrap();
+                    check!(c, call(|| Encoding::to_le_bytes(&<T as Encoding>::from_le_bytes(arr)).to_vec()), bytes.clone(); bytes);
+                    check!(c, call(|| Encoding::to_be_bytes(&<T as Encoding>::from_be_bytes(arr)).to_vec()), bytes.clone(); bytes);
+                    let ar: ByteArray<T> = ByteArray::<T>::try_from(&bytes[..]).unwrap();
+                    check!(c, call(|| ar.clone().into_uint_be().to_be_byte_array().to_vec()), bytes.clone(); bytes);
+                    check!(c, call(|| ar.clone().into_uint_le().to_le_byte_array().to_vec()), bytes.clone(); bytes);
+                }
+            }
+
+            /// from_be_slice / from_le_slice reject every slice whose length is not exactly BYTES.
+            pub fn wrong_len(c: &mut Ctx) {
+                for len in 0..=N + 9 {
+                    if len == N {
+                        continue;
+                    }
+                    for fill in 0..3 {
+                        if c.done() {
+                            return;
+                        }
+                        let bytes: Vec<u8> = match fill {
+                            0 => vec![0u8; len],
+                            1 => vec![0xffu8; len],
+                            _ => rnd_bytes(c, len),
+                        };
+                        must_panic!(c, call(|| T::from_be_slice(&bytes)).map(|r| ub(&r)); bytes, len);
+                        must_panic!(c, call(|| T::from_le_slice(&bytes)).map(|r| ub(&r)); bytes, len);
+                    }
+                }
+            }
+        }
+    };
+}
+
+fixed_mod!(f64, U64, 1);
+fixed_mod!(f128, U128, 2);
+fixed_mod!(f192, U192, 3);
+fixed_mod!(f256, U256, 4);
+fixed_mod!(f384, U384, 6);
+fixed_mod!(f512, U512, 8);
+fixed_mod!(f1024, U1024, 16);
+fixed_mod!(f2048, U2048, 32);
+
+// ---------------------------------------------------------------- Uint / Int: hex
+
+/// from_be_hex / from_le_hex / Int::from_be_hex accept the full-width numeral in either case.
+fn hex_accept<const L: usize>(c: &mut Ctx) {
+    let (w, bits) = (16 * L, 64 * L as u32);
+    for a in c.inputs1(L) {
+        if c.done() {
+            return;
+        }
+        let lower = format!("{:0w$x}", a);
+        let le_lower = hex_of(&le_bytes(&a, 8 * L));
+        let forms = [lower.clone(), lower.to_uppercase(), mixed_case(c, &lower)];
+        for s in forms {
+            check!(c, call(|| Uint::<L>::from_be_hex(&s)).map(|r| ub(&r)), a.clone(); s);
+            check!(c, call(|| Int::<L>::from_be_hex(&s)).map(|r| ib(&r)), signed_of(&a, bits); s);
+        }
+        let forms = [le_lower.clone(), le_lower.to_uppercase(), mixed_case(c, &le_lower)];
+        for s in forms {
+            check!(c, call(|| Uint::<L>::from_le_hex(&s)).map(|r| ub(&r)), a.clone(); s);
+        }
+    }
+    // every hex digit at the probed positions: the value is the one the numeral denotes
+    for base in hex_bases::<L>(c) {
+        for pos in hex_positions(c, w) {
+            for d in HEX_DIGITS.chars() {
+                if c.done() {
+                    return;
+                }
+                let s = replace_at(&base, pos, 1, &d.to_string());
+                let vbe = BigUint::parse_bytes(s.as_bytes(), 16).unwrap();
+                let vle = parse_le_hex(&s).unwrap();
+                check!(c, call(|| Uint::<L>::from_be_hex(&s)).map(|r| ub(&r)), vbe.clone(); s);
+                check!(c, call(|| Uint::<L>::from_le_hex(&s)).map(|r| ub(&r)), vle; s);
+                check!(c, call(|| Int::<L>::from_be_hex(&s)).map(|r| ib(&r)), signed_of(&vbe, bits); s);
+            }
+        }
+    }
+}
+
+/// A few well-formed full-width hex strings to be damaged.
+fn hex_bases<const L: usize>(c: &mut Ctx) -> Vec<String> {
+    let w = 16 * L;
+    let r1 = format!("{:0w$x}", c.rnd(L));
+    let r2 = format!("{:0w$X}", c.rnd(L));
+    vec!["0".repeat(w), "f".repeat(w), "F".repeat(w), "9".repeat(w), "a".repeat(w), r1, r2]
+}
+
+/// Malformed hex (documented: panics): any non-hex character anywhere, any wrong length.
+fn hex_reject<const L: usize>(c: &mut Ctx) {
+    let w = 16 * L;
+    let bad = non_hex_ascii();
+    for base in hex_bases::<L>(c) {
+        for pos in hex_positions(c, w) {
+            for &ch in &bad {
+                if c.done() {
+                    return;
+                }
+                let s = replace_at(&base, pos, 1, &ch.to_string());
+                must_panic!(c, call(|| Uint::<L>::from_be_hex(&s)).map(|r| ub(&r)); s, pos);
+                must_panic!(c, call(|| Uint::<L>::from_le_hex(&s)).map(|r| ub(&r)); s, pos);
+                must_panic!(c, call(|| Int::<L>::from_be_hex(&s)).map(|r| ib(&r)); s, pos);
+            }
+            // bytes 0x80..0xff: multi-byte sequences of the same total byte length
+            for m in MULTI {
+                if pos + m.len() > w || c.done() {
+                    continue;
+                }
+                let s = replace_at(&base, pos, m.len(), m);
+                must_panic!(c, call(|| Uint::<L>::from_be_hex(&s)).map(|r| ub(&r)); s, pos);
+                must_panic!(c, call(|| Uint::<L>::from_le_hex(&s)).map(|r| ub(&r)); s, pos);
+                must_panic!(c, call(|| Int::<L>::from_be_hex(&s)).map(|r| ib(&r)); s, pos);
+            }
+        }
+        // two bad characters whose error flags could cancel, first and last digit
+        let s = replace_at(&replace_at(&base, 0, 1, "g"), w - 1, 1, "G");
+        must_panic!(c, call(|| Uint::<L>::from_be_hex(&s)).map(|r| ub(&r)); s);
+        must_panic!(c, call(|| Uint::<L>::from_le_hex(&s)).map(|r| ub(&r)); s);
+    }
+    // wrong sizes: not zero-padded to the full width, or too long
+    let mut lens: Vec<usize> = (0..=18).chain(w.saturating_sub(18)..=w + 18).collect();
+    lens.extend([2 * w, w / 2]);
+    lens.sort();
+    lens.dedup();
+    for len in lens {
+        if len == w || c.done() {
+            continue;
+        }
+        for d in ["0", "f", "1"] {
+            let s = d.repeat(len);
+            must_panic!(c, call(|| Uint::<L>::from_be_hex(&s)).map(|r| ub(&r)); s, len);
+            must_panic!(c, call(|| Uint::<L>::from_le_hex(&s)).map(|r| ub(&r)); s, len);
+            must_panic!(c, call(|| Int::<L>::from_be_hex(&s)).map(|r| ib(&r)); s, len);
+        }
+    }
+}
+
+// ---------------------------------------------------------------- Uint / Int / Limb: formatting
+
+fn fmt_expected(bits_value: &BigUint, hex_width: usize) -> [String; 8] {
+    let lower = format!("{:0w$x}", bits_value, w = hex_width);
+    let upper = lower.to_uppercase();
+    let bin = format!("{:0w$b}", bits_value, w = 4 * hex_width);
+    [
+        lower.clone(),
+        format!("0x{}", lower),
+        upper.clone(),
+        format!("0x{}", upper),
+        bin.clone(),
+        format!("0b{}", bin),
+        // Display is upper-case hex at full width
+        upper.clone(),
+        upper,
+    ]
+}
+
+fn fmt_all<T: core::fmt::LowerHex + core::fmt::UpperHex + core::fmt::Binary + core::fmt::Display>(x: &T) -> [String; 8] {
+    [
+        format!("{:x}", x),
+        format!("{:#x}", x),
+        format!("{:X}", x),
+        format!("{:#X}", x),
+        format!("{:b}", x),
+        format!("{:#b}", x),
+        format!("{}", x),
+        x.to_string(),
+    ]
+}
+
+fn fmt_show(v: [String; 8]) -> Vec<String> {
+    v.to_vec()
+}
+
+fn fmt_case<const L: usize>(c: &mut Ctx) {
+    let bits = 64 * L as u32;
+    for a in c.scaled(2, |c| c.inputs1(L)) {
+        if c.done() {
+            return;
+        }
+        let x = bu::<L>(&a);
+        let exp = fmt_show(fmt_expected(&a, 16 * L));
+        check!(c, call(|| fmt_show(fmt_all(&x))), exp.clone(); a);
+        let xi = bi::<L>(&signed_of(&a, bits));
+        check!(c, call(|| fmt_show(fmt_all(&xi))), exp; a);
+        // the lower-hex rendering parses back
+        check!(c, call(|| Uint::<L>::from_be_hex(&format!("{:x}", x))).map(|r| ub(&r)), a.clone(); a);
+        check!(c, call(|| Uint::<L>::from_be_hex(&format!("{}", x))).map(|r| ub(&r)), a.clone(); a);
+    }
+}
+
+// ---------------------------------------------------------------- words and limbs
+
+fn words_case<const L: usize>(c: &mut Ctx) {
+    for a in c.scaled(2, |c| c.inputs1(L)) {
+        if c.done() {
+            return;
+        }
+        let w: Vec<Word> = big_to_words(&a, L);
+        let arr: [Word; L] = w.clone().try_into().unwrap();
+        let larr: [Limb; L] = arr.map(Limb);
+        let le = le_bytes(&a, 8 * L);
+        let bytes_of = |x: &Uint<L>| -> Vec<u8> { x.as_words().iter().flat_map(|w| w.to_le_bytes()).collect() };
+        // constructors from words / limbs agree with the byte positions of the value
+        check!(c, call(|| bytes_of(&Uint::<L>::from_words(arr))), le.clone(); a);
+        check!(c, call(|| bytes_of(&Uint::<L>::from(arr))), le.clone(); a);
+        check!(c, call(|| bytes_of(&Uint::<L>::new(larr))), le.clone(); a);
+        check!(c, call(|| bytes_of(&Uint::<L>::from(larr))), le.clone(); a);
+        let x = Uint::<L>::from_words(arr);
+        check!(c, call(|| x.to_words().to_vec()), w.clone(); a);
+        check!(c, call(|| x.as_words().to_vec()), w.clone(); a);
+        check!(c, call(|| { let mut y = x; y.as_words_mut().to_vec() }), w.clone(); a);
+        check!(c, call(|| <[Word; L]>::from(x).to_vec()), w.clone(); a);
+        check!(c, call(|| AsRef::<[Word; L]>::as_ref(&x).to_vec()), w.clone(); a);
+        check!(c, call(|| x.to_limbs().iter().map(|l| l.0).collect::<Vec<_>>()), w.clone(); a);
+        check!(c, call(|| x.as_limbs().iter().map(|l| l.0).collect::<Vec<_>>()), w.clone(); a);
+        check!(c, call(|| { let mut y = x; y.as_limbs_mut().iter().map(|l| l.0).collect::<Vec<_>>() }), w.clone(); a);
+        check!(c, call(|| <[Limb; L]>::from(x).iter().map(|l| l.0).collect::<Vec<_>>()), w.clone(); a);
+        check!(c, call(|| AsRef::<[Limb]>::as_ref(&x).iter().map(|l| l.0).collect::<Vec<_>>()), w.clone(); a);
+        // Int: same bit pattern
+        let s = signed_of(&a, 64 * L as u32);
+        check!(c, call(|| Int::<L>::from_words(arr)).map(|r| ib(&r)), s.clone(); a);
+        check!(c, call(|| Int::<L>::new(larr)).map(|r| ib(&r)), s.clone(); a);
+        check!(c, call(|| x.as_int()).map(|r| ib(&r)), s.clone(); a);
+        let xi = Int::<L>::from_words(arr);
+        check!(c, call(|| xi.to_words().to_vec()), w.clone(); a);
+        check!(c, call(|| xi.as_words().to_vec()), w.clone(); a);
+        check!(c, call(|| xi.to_limbs().iter().map(|l| l.0).collect::<Vec<_>>()), w.clone(); a);
+        check!(c, call(|| xi.as_limbs().iter().map(|l| l.0).collect::<Vec<_>>()), w.clone(); a);
+        check!(c, call(|| *xi.as_uint()).map(|r| ub(&r)), a.clone(); a);
+    }
+}
+
+// ---------------------------------------------------------------- primitives
+
+/// 128-bit patterns whose truncations give interesting u8..u128 / i8..i128 values.
+fn prim_patterns(c: &mut Ctx) -> Vec<u128> {
+    let mut v: Vec<u128> = c.edge_list(2).iter().map(|x| x.to_u128().unwrap()).collect();
+    for k in [7u32, 8, 15, 16, 31, 32, 63, 64, 127] {
+        let p = 1u128 << k;
+        v.extend([p, p - 1, p + 1, p.wrapping_neg(), (p - 1).wrapping_neg(), (p + 1).wrapping_neg()]);
+    }
+    v.extend((0..=255u128).chain((0..=255u128).map(|x| x.wrapping_neg())));
+    for _ in 0..c.iters / 2 {
+        v.push(c.rnd(2).to_u128().unwrap());
+    }
+    v
+}
+
+fn from_unsigned<const L: usize>(c: &mut Ctx) {
+    for v in prim_patterns(c) {
+        if c.done() {
+            return;
+        }
+        let (v8, v16, v32, v64) = (v as u8, v as u16, v as u32, v as u64);
+        check!(c, call(|| Uint::<L>::from_u8(v8)).map(|r| ub(&r)), BigUint::from(v8); v8);
+        check!(c, call(|| Uint::<L>::from(v8)).map(|r| ub(&r)), BigUint::from(v8); v8);
+        check!(c, call(|| Uint::<L>::from_u16(v16)).map(|r| ub(&r)), BigUint::from(v16); v16);
+        check!(c, call(|| Uint::<L>::from(v16)).map(|r| ub(&r)), BigUint::from(v16); v16);
+        check!(c, call(|| Uint::<L>::from_u32(v32)).map(|r| ub(&r)), BigUint::from(v32); v32);
+        check!(c, call(|| Uint::<L>::from(v32)).map(|r| ub(&r)), BigUint::from(v32); v32);
+        check!(c, call(|| Uint::<L>::from_u64(v64)).map(|r| ub(&r)), BigUint::from(v64); v64);
+        check!(c, call(|| Uint::<L>::from(v64)).map(|r| ub(&r)), BigUint::from(v64); v64);
+        check!(c, call(|| Uint::<L>::from_word(v64)).map(|r| ub(&r)), BigUint::from(v64); v64);
+        check!(c, call(|| Uint::<L>::from(Limb(v64))).map(|r| ub(&r)), BigUint::from(v64); v64);
+        if L >= 2 {
+            // (a single limb cannot hold a u128: the constructors assert LIMBS >= 2)
+            check!(c, call(|| Uint::<L>::from_u128(v)).map(|r| ub(&r)), BigUint::from(v); v);
+            check!(c, call(|| Uint::<L>::from(v)).map(|r| ub(&r)), BigUint::from(v); v);
+            check!(c, call(|| Uint::<L>::from_wide_word(v as WideWord)).map(|r| ub(&r)), BigUint::from(v); v);
+        }
+        // Limb
+        check!(c, call(|| Limb::from_u8(v8)).map(lb), BigUint::from(v8); v8);
+        check!(c, call(|| Limb::from(v8)).map(lb), BigUint::from(v8); v8);
+        check!(c, call(|| Limb::from_u16(v16)).map(lb), BigUint::from(v16); v16);
+        check!(c, call(|| Limb::from(v16)).map(lb), BigUint::from(v16); v16);
+        check!(c, call(|| Limb::from_u32(v32)).map(lb), BigUint::from(v32); v32);
+        check!(c, call(|| Limb::from(v32)).map(lb), BigUint::from(v32); v32);
+        check!(c, call(|| Limb::from_u64(v64)).map(lb), BigUint::from(v64); v64);
+        check!(c, call(|| Limb::from(v64)).map(lb), BigUint::from(v64); v64);
+        check!(c, call(|| Word::from(Limb(v64))), v64; v64);
+        check!(c, call(|| WideWord::from(Limb(v64))), v64 as u128; v64);
+    }
+}
+
+fn from_signed<const L: usize>(c: &mut Ctx) {
+    for v in prim_patterns(c) {
+        if c.done() {
+            return;
+        }
+        let (v8, v16, v32, v64) = (v as i8, v as i16, v as i32, v as i64);
+        // an i128 that fits the target (every i128 fits two or more limbs)
+        let v128: i128 = if L >= 2 { v as i128 } else { v64 as i128 };
+        check!(c, call(|| Int::<L>::from_i8(v8)).map(|r| ib(&r)), BigInt::from(v8); v8);
+        check!(c, call(|| Int::<L>::from(v8)).map(|r| ib(&r)), BigInt::from(v8); v8);
+        check!(c, call(|| Int::<L>::from_i16(v16)).map(|r| ib(&r)), BigInt::from(v16); v16);
+        check!(c, call(|| Int::<L>::from(v16)).map(|r| ib(&r)), BigInt::from(v16); v16);
+        check!(c, call(|| Int::<L>::from_i32(v32)).map(|r| ib(&r)), BigInt::from(v32); v32);
+        check!(c, call(|| Int::<L>::from(v32)).map(|r| ib(&r)), BigInt::from(v32); v32);
+        check!(c, call(|| Int::<L>::from_i64(v64)).map(|r| ib(&r)), BigInt::from(v64); v64);
+        check!(c, call(|| Int::<L>::from(v64)).map(|r| ib(&r)), BigInt::from(v64); v64);
+        check!(c, call(|| Int::<L>::from_i128(v128)).map(|r| ib(&r)), BigInt::from(v128); v128);
+        if L >= 2 {
+            check!(c, call(|| Int::<L>::from(v128)).map(|r| ib(&r)), BigInt::from(v128); v128);
+        }
+    }
+}
+
+/// A value that does not fit must not come back silently changed: `Uint::<1>::from_u128` asserts the
+/// width; the signed twin on one limb has no documented truncation either.
+fn from_i128_one_limb_out_of_range(c: &mut Ctx) {
+    for v in prim_patterns(c) {
+        if c.done() {
+            return;
+        }
+        let v = v as i128;
+        if v >= i64::MIN as i128 && v <= i64::MAX as i128 {
+            continue;
+        }
+        let got = call(|| I64::from_i128(v)).map(|r| ib(&r));
+        // either the value is preserved (impossible here) or the call is rejected
+        let ok = match &got {
+            Err(_) => true,
+            Ok(g) => *g == BigInt::from(v),
+        };
+        let returned = got.ok();
+        let _ = holds!(c, ok, "I64::from_i128(v) preserves v or rejects it (no truncation is documented; Uint::<1>::from_u128 and From<i128> assert)"; v, returned);
+    }
+}
+
+fn into_prims(c: &mut Ctx) {
+    for a in c.inputs1(2) {
+        if c.done() {
+            return;
+        }
+        let lo = &a & mask(64);
+        check!(c, call(|| u64::from(bu::<1>(&lo))), lo.to_u64().unwrap(); lo);
+        check!(c, call(|| u128::from(bu::<2>(&a))), a.to_u128().unwrap(); a);
+        check!(c, call(|| i64::from(bi::<1>(&signed_of(&lo, 64)))), lo.to_u64().unwrap() as i64; lo);
+        check!(c, call(|| i128::from(bi::<2>(&signed_of(&a, 128)))), a.to_u128().unwrap() as i128; a);
+        // and back
+        check!(c, call(|| u64::from(U64::from(lo.to_u64().unwrap()))), lo.to_u64().unwrap(); lo);
+        check!(c, call(|| u128::from(U128::from(a.to_u128().unwrap()))), a.to_u128().unwrap(); a);
+        check!(c, call(|| i128::from(I128::from(a.to_u128().unwrap() as i128))), a.to_u128().unwrap() as i128; a);
+        check!(c, call(|| i64::from(I64::from(lo.to_u64().unwrap() as i64))), lo.to_u64().unwrap() as i64; lo);
+    }
+}
+
+// ---------------------------------------------------------------- concat / split
+
+fn concat_split_mixed<const LO: usize, const HI: usize, const O: usize>(c: &mut Ctx)
+where
+    Uint<LO>: ConcatMixed<Uint<HI>, MixedOutput = Uint<O>>,
+    Uint<O>: SplitMixed<Uint<LO>, Uint<HI>>,
+{
+    for (a, b) in c.scaled(2, |c| c.inputs2(LO, HI)) {
+        if c.done() {
+            return;
+        }
+        let (lo, hi) = (bu::<LO>(&a), bu::<HI>(&b));
+        let joined = &a + (&b << (64 * LO));
+        check!(c, call(|| Uint::<LO>::concat_mixed(&lo, &hi)).map(|r| ub(&r)), joined.clone(); a, b);
+        check!(c, call(|| ConcatMixed::concat_mixed(&lo, &hi)).map(|r| ub(&r)), joined.clone(); a, b);
+        check!(c, call(|| Uint::<O>::from((lo, hi))).map(|r| ub(&r)), joined.clone(); a, b);
+        check!(c, call(|| Uint::<O>::from(&(lo, hi))).map(|r| ub(&r)), joined.clone(); a, b);
+        let x = bu::<O>(&joined);
+        let parts = (a.clone(), b.clone());
+        check!(c, call(|| { let (l, h): (Uint<LO>, Uint<HI>) = x.split_mixed(); (ub(&l), ub(&h)) }), parts.clone(); joined);
+        check!(c, call(|| { let (l, h): (Uint<LO>, Uint<HI>) = SplitMixed::split_mixed(&x); (ub(&l), ub(&h)) }), parts.clone(); joined);
+        check!(c, call(|| { let (l, h): (Uint<LO>, Uint<HI>) = x.into(); (ub(&l), ub(&h)) }), parts; joined);
+    }
+}
+
+fn concat_split_even<const H: usize, const O: usize>(c: &mut Ctx)
+where
+    Uint<H>: Concat<Output = Uint<O>>,
+    Uint<O>: Split<Output = Uint<H>>,
+{
+    for (a, b) in c.scaled(2, |c| c.inputs2(H, H)) {
+        if c.done() {
+            return;
+        }
+        let (lo, hi) = (bu::<H>(&a), bu::<H>(&b));
+        let joined = &a + (&b << (64 * H));
+        check!(c, call(|| lo.concat(&hi)).map(|r| ub(&r)), joined.clone(); a, b);
+        check!(c, call(|| Concat::concat(&lo, &hi)).map(|r| ub(&r)), joined.clone(); a, b);
+        let x = bu::<O>(&joined);
+        let parts = (a.clone(), b.clone());
+        check!(c, call(|| { let (l, h) = x.split(); (ub(&l), ub(&h)) }), parts.clone(); joined);
+        check!(c, call(|| { let (l, h) = Split::split(&x); (ub(&l), ub(&h)) }), parts; joined);
+    }
+}
+
+// ---------------------------------------------------------------- resize
+
+fn resize_case<const L: usize, const T: usize>(c: &mut Ctx) {
+    let (bl_, bt) = (64 * L as u32, 64 * T as u32);
+    let mut vals = c.scaled(2, |c| c.inputs1(L));
+    // values around the target width
+    for k in [bt.min(bl_) - 1, bt.min(bl_)] {
+        vals.extend([pow2(k) & mask(bl_), (pow2(k) - 1u32) & mask(bl_), (pow2(k) + 1u32) & mask(bl_)]);
+        vals.push(mask(bl_) ^ (pow2(k) & mask(bl_)));
+    }
+    for a in vals {
+        if c.done() {
+            return;
+        }
+        let x = bu::<L>(&a);
+        // zero-extend / truncate
+        let exp = &a & mask(bt);
+        check!(c, call(|| x.resize::<T>()).map(|r| ub(&r)), exp.clone(); a);
+        check!(c, call(|| Uint::<T>::from(&x)).map(|r| ub(&r)), exp; a);
+        // sign-extend / truncate the two's complement
+        let s = signed_of(&a, bl_);
+        let xi = bi::<L>(&s);
+        let exp = wrap_signed(&s, bt);
+        check!(c, call(|| xi.resize::<T>()).map(|r| ib(&r)), exp.clone(); s);
+        check!(c, call(|| Int::<T>::from(&xi)).map(|r| ib(&r)), exp; s);
+    }
+}
+
+// ---------------------------------------------------------------- Limb
+
+fn limb_case(c: &mut Ctx) {
+    let mut vals = c.edge_list(1);
+    for _ in 0..c.iters {
+        vals.push(c.rnd(1));
+    }
+    for a in vals {
+        if c.done() {
+            return;
+        }
+        let x = bl(&a);
+        let (be, le) = (be_bytes(&a, 8), le_bytes(&a, 8));
+        check!(c, call(|| x.to_be_bytes().to_vec()), be.clone(); a);
+        check!(c, call(|| x.to_le_bytes().to_vec()), le.clone(); a);
+        let bea: [u8; 8] = be.clone().try_into().unwrap();
+        let lea: [u8; 8] = le.clone().try_into().unwrap();
+        check!(c, call(|| Limb::from_be_bytes(bea)).map(lb), a.clone(); a);
+        check!(c, call(|| Limb::from_le_bytes(lea)).map(lb), a.clone(); a);
+        check!(c, call(|| fmt_show(fmt_all(&x))), fmt_show(fmt_expected(&a, 16)); a);
+    }
+    for _ in 0..c.iters / 4 {
+        let bytes = rnd_bytes(c, 8);
+        let arr: [u8; 8] = bytes.clone().try_into().unwrap();
+        check!(c, call(|| Limb::from_be_bytes(arr)).map(lb), BigUint::from_bytes_be(&bytes); bytes);
+        check!(c, call(|| Limb::from_le_bytes(arr)).map(lb), BigUint::from_bytes_le(&bytes); bytes);
+        check!(c, call(|| Limb::from_be_bytes(arr).to_be_bytes().to_vec()), bytes.clone(); bytes);
+        check!(c, call(|| Limb::from_le_bytes(arr).to_le_bytes().to_vec()), bytes.clone(); bytes);
+    }
+}
+
+// ---------------------------------------------------------------- BoxedUint
+
+/// Limbs of a boxed value created with `at_least_bits_precision = prec` (rounded up to whole limbs;
+/// the constructors never go below one limb).
+fn limbs_for(prec: u32) -> usize {
+    (prec.div_ceil(64) as usize).max(1)
+}
+
+fn boxed_bytes(c: &mut Ctx) {
+    for nl in 1..=5usize {
+        for a in c.scaled(5, |c| c.inputs1(nl)) {
+            if c.done() {
+                return;
+            }
+            let x = bx(&a, nl);
+            let n = 8 * nl;
+            let (be, le) = (be_bytes(&a, n), le_bytes(&a, n));
+            check!(c, call(|| x.to_be_bytes().to_vec()), be.clone(); a, nl);
+            check!(c, call(|| x.to_le_bytes().to_vec()), le.clone(); a, nl);
+            let prec = 64 * nl as u32;
+            let shape = |r: Result<BoxedUint, DecodeError>| r.map(|v| (xb(&v), v.nlimbs())).map_err(|e| format!("{:?}", e));
+            check!(c, call(|| shape(BoxedUint::from_be_slice(&be, prec))), Ok((a.clone(), nl)); a, nl);
+            check!(c, call(|| shape(BoxedUint::from_le_slice(&le, prec))), Ok((a.clone(), nl)); a, nl);
+            // minimal encodings into the exact bit precision of the value
+            let bits = a.bits() as u32;
+            let (mbe, mle) = (be_bytes(&a, bits.div_ceil(8) as usize), le_bytes(&a, bits.div_ceil(8) as usize));
+            if bits > 0 {
+                check!(c, call(|| shape(BoxedUint::from_be_slice(&mbe, bits))), Ok((a.clone(), limbs_for(bits))); a, bits);
+                check!(c, call(|| shape(BoxedUint::from_le_slice(&mle, bits))), Ok((a.clone(), limbs_for(bits))); a, bits);
+                // one bit less than the value needs: documented error
+                let exp = boxed_slice_expected(mbe.len(), &a, bits - 1).map(|v| (v, limbs_for(bits - 1)));
+                check!(c, call(|| shape(BoxedUint::from_be_slice(&mbe, bits - 1))), exp.clone(); a, bits);
+                check!(c, call(|| shape(BoxedUint::from_le_slice(&mle, bits - 1))), exp; a, bits);
+            }
+        }
+    }
+}
+
+/// Documented rule of BoxedUint::from_be_slice / from_le_slice.
+fn boxed_slice_expected(len: usize, value: &BigUint, prec: u32) -> Result<BigUint, String> {
+    if len > (prec as usize).div_ceil(8) {
+        Err("InputSize".to_string())
+    } else if value.bits() > prec as u64 {
+        Err("Precision".to_string())
+    } else {
+        Ok(value.clone())
+    }
+}
+
+fn boxed_slices(c: &mut Ctx) {
+    let mut precs: Vec<u32> = vec![
+        0, 1, 2, 7, 8, 9, 15, 16, 17, 31, 32, 33, 56, 57, 63, 64, 65, 71, 72, 73, 100, 127, 128, 129, 130, 136, 191, 192, 193, 200,
+        255, 256, 257, 264, 300, 319, 320, 321, 383, 384, 385, 448, 449, 511, 512, 513, 519, 520,
+    ];
+    for _ in 0..8 {
+        precs.push(c.below(521) as u32);
+    }
+    for prec in precs {
+        let cap = (prec as usize).div_ceil(8);
+        for len in 0..=cap + 9 {
+            // byte patterns: zero, ones, exactly 2^prec, 2^prec - 1, 2^prec + 1, top bit of the top byte,
+            // leading zero bytes then a value, random
+            let mut pats: Vec<Vec<u8>> = vec![vec![0u8; len], vec![0xffu8; len], rnd_bytes(c, len), rnd_bytes(c, len)];
+            for v in [pow2(prec), pow2(prec) - 1u32, pow2(prec) + 1u32, pow2(prec.saturating_sub(1))] {
+                if (v.bits() as usize).div_ceil(8) <= len {
+                    pats.push(be_bytes(&v, len));
+                }
+            }
+            if len > 0 {
+                let mut p = rnd_bytes(c, len);
+                p[0] = 0;
+                pats.push(p);
+                let mut p = vec![0u8; len];
+                p[0] = 0x80;
+                pats.push(p);
+                let mut p = vec![0u8; len];
+                p[0] = 1;
+                pats.push(p);
+                let mut p = vec![0xffu8; len];
+                p[0] = 0x7f;
+                pats.push(p);
+            }
+            for be in pats {
+                if c.done() {
+                    return;
+                }
+                let le: Vec<u8> = be.iter().rev().cloned().collect();
+                let value = BigUint::from_bytes_be(&be);
+                let exp = boxed_slice_expected(len, &value, prec);
+                let val = |r: Result<BoxedUint, DecodeError>| r.map(|v| xb(&v)).map_err(|e| format!("{:?}", e));
+                check!(c, call(|| val(BoxedUint::from_be_slice(&be, prec))), exp.clone(); be, prec);
+                check!(c, call(|| val(BoxedUint::from_le_slice(&le, prec))), exp.clone(); le, prec);
+                if exp.is_ok() && prec > 0 {
+                    // documented precision of the result, and the round trip through the encoder
+                    let nl = limbs_for(prec);
+                    check!(c, call(|| BoxedUint::from_be_slice(&be, prec).map(|v| v.nlimbs()).ok()), Some(nl); be, prec);
+                    check!(c, call(|| BoxedUint::from_le_slice(&le, prec).map(|v| v.nlimbs()).ok()), Some(nl); le, prec);
+                    check!(c, call(|| BoxedUint::from_be_slice(&be, prec).map(|v| v.to_be_bytes().to_vec()).ok()), Some(be_bytes(&value, 8 * nl)); be, prec);
+                    check!(c, call(|| BoxedUint::from_le_slice(&le, prec).map(|v| v.to_le_bytes().to_vec()).ok()), Some(le_bytes(&value, 8 * nl)); le, prec);
+                }
+            }
+        }
+    }
+}
+
+fn boxed_hex(c: &mut Ctx) {
+    let bad = non_hex_ascii();
+    for nl in 0..=5usize {
+        let (w, prec) = (16 * nl, 64 * nl as u32);
+        let val = |r: CtOption<BoxedUint>| opt(r).map(|v| (xb(&v), v.nlimbs()));
+        if nl == 0 {
+            // the only string of the right length
+            let s = String::new();
+            check!(c, call(|| opt(BoxedUint::from_be_hex(&s, prec)).map(|v| xb(&v))), Some(BigUint::zero()); s, prec);
+            continue;
+        }
+        for a in c.scaled(12, |c| c.inputs1(nl)) {
+            if c.done() {
+                return;
+            }
+            let lower = format!("{:0w$x}", a);
+            for s in [lower.clone(), lower.to_uppercase(), mixed_case(c, &lower)] {
+                check!(c, call(|| val(BoxedUint::from_be_hex(&s, prec))), Some((a.clone(), nl)); s, prec);
+            }
+        }
+        let r1 = format!("{:0w$x}", c.rnd(nl));
+        for base in ["0".repeat(w), "f".repeat(w), "A".repeat(w), r1] {
+            for pos in hex_positions(c, w) {
+                for d in HEX_DIGITS.chars() {
+                    let s = replace_at(&base, pos, 1, &d.to_string());
+                    let v = BigUint::parse_bytes(s.as_bytes(), 16).unwrap();
+                    check!(c, call(|| val(BoxedUint::from_be_hex(&s, prec))), Some((v, nl)); s, prec);
+                }
+                for &ch in &bad {
+                    if c.done() {
+                        return;
+                    }
+                    let s = replace_at(&base, pos, 1, &ch.to_string());
+                    check!(c, call(|| val(BoxedUint::from_be_hex(&s, prec))), None; s, prec);
+                }
+                for m in MULTI {
+                    if pos + m.len() > w || c.done() {
+                        continue;
+                    }
+                    let s = replace_at(&base, pos, m.len(), m);
+                    check!(c, call(|| val(BoxedUint::from_be_hex(&s, prec))), None; s, prec);
+                }
+            }
+            let s = replace_at(&replace_at(&base, 0, 1, "g"), w - 1, 1, "G");
+            check!(c, call(|| val(BoxedUint::from_be_hex(&s, prec))), None; s, prec);
+        }
+    }
+}
+
+fn boxed_fmt(c: &mut Ctx) {
+    for nl in 1..=5usize {
+        for a in c.scaled(10, |c| c.inputs1(nl)) {
+            if c.done() {
+                return;
+            }
+            let x = bx(&a, nl);
+            check!(c, call(|| fmt_show(fmt_all(&x))), fmt_show(fmt_expected(&a, 16 * nl)); a, nl);
+            check!(c, call(|| opt(BoxedUint::from_be_hex(&format!("{:x}", x), 64 * nl as u32)).map(|v| xb(&v))), Some(a.clone()); a, nl);
+        }
+    }
+}
+
+fn boxed_from(c: &mut Ctx) {
+    for v in prim_patterns(c) {
+        if c.done() {
+            return;
+        }
+        let (v8, v16, v32, v64) = (v as u8, v as u16, v as u32, v as u64);
+        let shape = |x: BoxedUint| (xb(&x), x.nlimbs());
+        check!(c, call(|| shape(BoxedUint::from(v8))), (BigUint::from(v8), 1); v8);
+        check!(c, call(|| shape(BoxedUint::from(v16))), (BigUint::from(v16), 1); v16);
+        check!(c, call(|| shape(BoxedUint::from(v32))), (BigUint::from(v32), 1); v32);
+        check!(c, call(|| shape(BoxedUint::from(v64))), (BigUint::from(v64), 1); v64);
+        check!(c, call(|| shape(BoxedUint::from(v))), (BigUint::from(v), 2); v);
+        check!(c, call(|| shape(BoxedUint::from(Limb(v64)))), (BigUint::from(v64), 1); v64);
+    }
+    for nl in 1..=5usize {
+        for a in c.scaled(10, |c| c.inputs1(nl)) {
+            if c.done() {
+                return;
+            }
+            let w = big_to_words(&a, nl);
+            let limbs: Vec<Limb> = w.iter().map(|&x| Limb(x)).collect();
+            let shape = |x: BoxedUint| (xb(&x), x.nlimbs());
+            let exp = (a.clone(), nl);
+            check!(c, call(|| shape(BoxedUint::from(limbs.clone()))), exp.clone(); a, nl);
+            check!(c, call(|| shape(BoxedUint::from(&limbs[..]))), exp.clone(); a, nl);
+            check!(c, call(|| shape(BoxedUint::from(limbs.clone().into_boxed_slice()))), exp.clone(); a, nl);
+            check!(c, call(|| shape(BoxedUint::from(w.clone()))), exp.clone(); a, nl);
+            check!(c, call(|| shape(BoxedUint::from_words(w.clone()))), exp.clone(); a, nl);
+            let x = BoxedUint::from_words(w.clone());
+            check!(c, call(|| x.to_words().to_vec()), w.clone(); a, nl);
+            check!(c, call(|| x.as_words().to_vec()), w.clone(); a, nl);
+            check!(c, call(|| { let mut y = x.clone(); y.as_words_mut().to_vec() }), w.clone(); a, nl);
+            check!(c, call(|| x.to_limbs().iter().map(|l| l.0).collect::<Vec<_>>()), w.clone(); a, nl);
+            check!(c, call(|| x.as_limbs().iter().map(|l| l.0).collect::<Vec<_>>()), w.clone(); a, nl);
+            check!(c, call(|| x.clone().into_limbs().iter().map(|l| l.0).collect::<Vec<_>>()), w.clone(); a, nl);
+            check!(c, call(|| x.bits_precision()), 64 * nl as u32; a, nl);
+            // bytes of a value built from words are positional
+            check!(c, call(|| x.to_le_bytes().to_vec()), le_bytes(&a, 8 * nl); a, nl);
+        }
+    }
+    // empty limb lists denote zero
+    let e: Vec<Limb> = Vec::new();
+    let nl = 0usize;
+    check!(c, call(|| xb(&BoxedUint::from(e.clone()))), BigUint::zero(); nl);
+    check!(c, call(|| xb(&BoxedUint::from(&e[..]))), BigUint::zero(); nl);
+}
+
+fn boxed_from_uint<const L: usize>(c: &mut Ctx) {
+    for a in c.scaled(4, |c| c.inputs1(L)) {
+        if c.done() {
+            return;
+        }
+        let x = bu::<L>(&a);
+        let shape = |x: BoxedUint| (xb(&x), x.nlimbs());
+        check!(c, call(|| shape(BoxedUint::from(x))), (a.clone(), L); a);
+        check!(c, call(|| shape(BoxedUint::from(&x))), (a.clone(), L); a);
+    }
+}
+
+fn boxed_widen_shorten(c: &mut Ctx) {
+    for nl in 1..=5usize {
+        let cur = 64 * nl as u32;
+        let mut targets: Vec<u32> = vec![0, 1, 63, 64, 65, 127, 128, 129, 191, 192, 193, 255, 256, 257, 319, 320, 321, 384, 448, 512, 1000];
+        targets.extend([cur - 1, cur, cur + 1]);
+        let mut vals = c.edges(nl, 24);
+        for _ in 0..(c.iters / 64).max(4) {
+            vals.push(c.rnd(nl));
+        }
+        for a in vals {
+            let x = bx(&a, nl);
+            for &t in &targets {
+                if c.done() {
+                    return;
+                }
+                let shape = |x: BoxedUint| (xb(&x), x.nlimbs());
+                // widen: documented panic if the target is smaller than the current precision
+                let got = call(|| shape(x.widen(t)));
+                if t >= cur {
+                    check!(c, got, (a.clone(), limbs_for(t)); a, nl, t);
+                } else {
+                    must_panic!(c, got; a, nl, t);
+                }
+                // shorten: documented panic if the target is larger than the current precision
+                let got = call(|| shape(x.shorten(t)));
+                if t <= cur {
+                    let k = limbs_for(t);
+                    check!(c, got, (&a & mask(64 * k as u32), k); a, nl, t);
+                } else {
+                    must_panic!(c, got; a, nl, t);
+                }
+            }
+        }
+    }
+}
+
+// ---------------------------------------------------------------- table
+
+macro_rules! mixed3 {
+    ($v:ident; $(($lo:literal, $hi:literal, $o:literal)),+ $(,)?) => {
+        $( $v.push(Case::new(
+            format!("U{}::concat_mixed/split_mixed/From<(lo,hi)> U{}+U{}", 64 * $o, 64 * $lo, 64 * $hi),
+            concat_split_mixed::<$lo, $hi, $o>,
+        )); )+
+    };
+}
+
+macro_rules! even2 {
+    ($v:ident; $(($h:literal, $o:literal)),+ $(,)?) => {
+        $( $v.push(Case::new(format!("U{}::concat/split (Concat/Split) U{}+U{}", 64 * $o, 64 * $h, 64 * $h), concat_split_even::<$h, $o>)); )+
+    };
+}
+
+macro_rules! resize2 {
+    ($v:ident; $(($a:literal, $b:literal)),+ $(,)?) => {
+        $( $v.push(Case::new(format!("U{}/I{}::resize / From<&_> -> {} bits", 64 * $a, 64 * $a, 64 * $b), resize_case::<$a, $b>)); )+
+    };
+}
+
+macro_rules! fixed_cases {
+    ($v:ident; $(($m:ident, $name:literal)),+) => {
+        $(
+            $v.push(Case::new(concat!($name, "::to/from_{be,le}_bytes (inherent, Encoding), from_{be,le}_slice, ArrayEncoding/ArrayDecoding"), $m::bytes));
+            $v.push(Case::new(concat!($name, "::from_{be,le}_slice wrong length"), $m::wrong_len));
+        )+
+    };
+}
 
 pub fn cases() -> Vec<Case> {
-    Vec::new()
+    let mut v = Vec::new();
+    fixed_cases!(v; (f64, "U64"), (f128, "U128"), (f192, "U192"), (f256, "U256"), (f384, "U384"), (f512, "U512"), (f1024, "U1024"), (f2048, "U2048"));
+    ucases!(v, "from_be_hex/from_le_hex/Int::from_be_hex well-formed", hex_accept; 1, 2, 3, 4, 5, 8, 16, 32);
+    ucases!(v, "from_be_hex/from_le_hex/Int::from_be_hex malformed or wrong size", hex_reject; 1, 2, 3, 4, 5, 8, 16, 32);
+    ucases!(v, "Display/LowerHex/UpperHex/Binary (Uint, Int)", fmt_case; 1, 2, 3, 4, 7, 16, 32);
+    ucases!(v, "from_words/to_words/as_words/to_limbs/as_limbs/new (Uint, Int)", words_case; 1, 2, 3, 4, 6, 16, 32);
+    ucases!(v, "from_u8..from_u128/From<u8..u128>/from_word/from_wide_word/From<Limb> (+Limb::from_*)", from_unsigned; 1, 2, 3, 4, 16);
+    icases!(v, "from_i8..from_i128/From<i8..i128>", from_signed; 1, 2, 3, 4, 16);
+    case!(v, "I64::from_i128 value outside i64", from_i128_one_limb_out_of_range);
+    case!(v, "u64::from(U64)/u128::from(U128)/i64::from(I64)/i128::from(I128)", into_prims);
+    even2!(v; (1, 2), (2, 4), (4, 8), (8, 16), (16, 32));
+    mixed3!(v; (1, 2, 3), (2, 1, 3), (1, 3, 4), (3, 1, 4), (1, 4, 5), (3, 2, 5), (2, 4, 6), (5, 1, 6), (3, 4, 7), (1, 7, 8), (5, 3, 8),
+        (7, 1, 8), (4, 5, 9), (9, 1, 10), (5, 6, 11), (7, 5, 12), (12, 1, 13), (6, 8, 14), (14, 1, 15), (1, 15, 16), (7, 9, 16), (9, 7, 16), (15, 1, 16));
+    resize2!(v; (1, 1), (1, 2), (2, 1), (1, 4), (4, 1), (2, 3), (3, 2), (3, 3), (4, 8), (8, 4), (4, 16), (16, 4), (16, 32), (32, 16));
+    case!(v, "Limb::to/from_{be,le}_bytes, Display/LowerHex/UpperHex/Binary", limb_case);
+    case!(v, "BoxedUint::to_be_bytes/to_le_bytes/from_be_slice/from_le_slice round trip", boxed_bytes);
+    case!(v, "BoxedUint::from_be_slice/from_le_slice every length and precision", boxed_slices);
+    case!(v, "BoxedUint::from_be_hex (right length)", boxed_hex);
+    case!(v, "BoxedUint Display/LowerHex/UpperHex/Binary", boxed_fmt);
+    case!(v, "BoxedUint From<u8..u128>/From<Limb>/From<Vec<Limb>>/From<&[Limb]>/From<Box<[Limb]>>/From<Vec<Word>>/from_words/to_words/as_words/to_limbs", boxed_from);
+    ucases!(v, "BoxedUint::from(Uint)/from(&Uint)", boxed_from_uint; 1, 2, 3, 4, 16);
+    case!(v, "BoxedUint::widen/shorten", boxed_widen_shorten);
+    v
 }
